@@ -255,6 +255,30 @@ def comment_terminators(rng, text, prob):
     return nl.join(out)
 
 
+def comment_in_expressions(rng, text, prob):
+    """a comment and a line break INSIDE an expression: after a binary operator or after a comma of an argument list
+    (the continuation starts with the next operand, e.g. a call name).  Comments are layout: same tree, no diagnostics."""
+    import re
+    nl = "\r\n" if "\r\n" in text else "\n"
+    out = []
+    for ln in text.split(nl):
+        if "'" in ln or '"' in ln or ";" in ln or rng.random() >= prob:
+            out.append(ln)
+            continue
+        spots = [m.end() for m in re.finditer(r" (?:\+|-|\*|/|&|=|<>|<=|>=|<|>) (?=[A-Za-z_(])|, (?=[A-Za-z_(])", ln)]
+        ind = ln[:len(ln) - len(ln.lstrip(" \t"))]
+        if not spots or not ln.strip() or " = " not in ln and "(" not in ln:
+            out.append(ln)
+            continue
+        k = rng.choice(spots)
+        if ln[:k].rstrip().endswith("=") and " = " in ln and ln.index(" = ") + 3 == k and not re.match(r"\s*[A-Za-z_.\[\]0-9]+ = ", ln):
+            out.append(ln)
+            continue
+        out.append(ln[:k].rstrip() + " ;" + rng.choice(["c", "note", "more"]))
+        out.append(ind + "    " + ln[k:])
+    return nl.join(out)
+
+
 SWITCH_COMMENT_CASES = [
     "proc P\n switch x\n  when 1\n   a = 1\n  endwhen\n  ;c\n endswitch\nendproc\n",
     "proc P\n switch x\n  when 1\n   a = 1\n  endwhen\n  ;c\n else\n   b = 2\n  ;d\n endswitch\nendproc\n",
